@@ -436,7 +436,7 @@ theorem heldOf_dropResources (w : World) (p : Pid) (hi : PoolInv w) (pl : Nat) :
 theorem PoolInv.finishProc (w : World) (p : Pid) (v : Int) (st : Bool) (hi : PoolInv w) : PoolInv (finishProc w p v st) := by
   unfold Sim.finishProc
   dsimp only
-  refine PoolInv.of_fp (modProc_fp_blocked _ _ _ (fun _ => rfl)) rfl rfl (PoolInv.same (wakeWaiters_same _ _ _) ?_)
+  refine PoolInv.of_fp (modProc_fp_blocked _ _ _ (fun _ => rfl) (fun _ => rfl)) rfl rfl (PoolInv.same (wakeWaiters_same _ _ _) ?_)
   split
   · exact PoolInv.dropResources _ _ (hi.same (cancelAwaiteds_same _ _))
   · exact (PoolInv.dropResources _ _ hi).same (cancelAwaiteds_same _ _)
@@ -624,7 +624,8 @@ theorem PoolInv.prioSet (w : World) (p q : Pid) (v : Int) (hi : PoolInv w) : Poo
           · intro q'; (repeat' split) <;> simp
         obtain ⟨a1, a2⟩ := ih _ (PoolInv.of_viewSame hstep.1 hi0)
         exact ⟨a1, fun q' => (a2 q').trans (hstep.2 q')⟩
-    have hw1 : PoolInv (w.modProc q fun y => { y with prio := v }) := hi.same (modProc_same _ _ _ (fun _ => rfl) (fun _ => rfl))
+    have hw1 : PoolInv (w.modProc q fun y => { y with prio := v }) :=
+      PoolInv.of_fp (modProc_fp_prio w q _ (fun _ => rfl) (fun _ => rfl)) rfl rfl hi
     obtain ⟨hi2, hheld2⟩ := h1 _ hw1 ((w.modProc q fun y => { y with prio := v }).proc q).awaits
     generalize (List.foldl _ (w.modProc q fun y => { y with prio := v }) _) = w2 at hi2 hheld2 ⊢
     -- the second fold: one reprioritize per pool held
